@@ -814,7 +814,13 @@ impl fmt::Display for Type<'_> {
 
         #[cfg(feature = "ast-comments")]
         if let Some(comments) = &tc.comments_after_type {
-          type_str.push_str(comments.to_string().trim_end());
+          if self.type_choices.len() > 1 {
+            // more alternatives follow: the comment must keep its line break,
+            // or it would swallow the next " / alternative"
+            type_str.push_str(&comments.to_string());
+          } else {
+            type_str.push_str(comments.to_string().trim_end());
+          }
         }
 
         continue;
